@@ -339,3 +339,20 @@ fn c11_token_constructor() {
     kani::assert(bal(&Address(1)) == 0 && bal(&Address(2)) == 0 && bal(&Address(3)) == 0, "VERIF:C11:a new token has no balances");
     kani::cover!(has_minter && m != owner, "VERIF:reach:constructed with a third-party minter");
 }
+
+// HARNESS props=C12 tier=quick profile=tok mode=strict shape="delegated transfer that the rules allow (live allowance incl. the expiration ledger itself, sufficient balance, no overflow) must succeed without any trap"
+#[kani::proof]
+fn c12_transfer_from_allowed_strict() {
+    let s = pre();
+    let spender = any::address(3);
+    let from = any::address(3);
+    let to = any::address(3);
+    let amount: i128 = kani::any();
+    model::set_auth(&spender, true);
+    let (bf, bt) = (s.b[s.idx(&from)], s.b[s.idx(&to)]);
+    kani::assume(amount >= 0 && s.allowance(&from, &spender) >= amount && bf >= amount);
+    kani::assume(from == to || bt.checked_add(amount).is_some());
+    model::with_contract(&tok(), || InterchainToken::transfer_from(s.env.clone(), spender.clone(), from.clone(), to.clone(), amount));
+    kani::assert(true, "VERIF:C12:a delegated transfer within a live allowance (usable up to and including its expiration ledger) and within the balance succeeds");
+    kani::cover!(amount > 0 && s.al_exp == s.seq, "VERIF:reach:allowed on the expiration ledger");
+}
